@@ -66,6 +66,20 @@ def source_variant(fam, v):
         out[n // 2 + 1] = "a replaced line\n"
         out.append("\nappended = True\n")
         return "".join(out)
+    if v in (5, 6):  # the same two far-apart lines edited inside the line, differently in 5 and 6
+        out = list(lines)
+        for k in (1, max(1, len(out) - 2)):
+            ln = out[k]
+            body = ln.rstrip("\r\n\x0b\x0c\x1c\x1d\x1e\x85\u2028\u2029")
+            out[k] = body + (" # five" if v == 5 else " # six!") + ln[len(body):]
+        return "".join(out)
+    if v in (7, 8):  # a character at column 0 of the middle line; 7 also inserts a line just before it
+        out = list(lines)
+        k = len(out) // 2
+        out[k] = "X" + out[k]
+        if v == 7:
+            out.insert(k, "inserted_before = True\n")
+        return "".join(out)
     # v == 3: rewritten, dissimilar (< 0.7)
     return ("totally different content for family %d\nnothing in common with the original\n"
             "0123456789 0123456789\nQWERTY UIOP\n" % fam)
@@ -261,7 +275,7 @@ def random_edit(r, nb, newfams=(7, 8, 21, 22)):
         label = ("ReId", i, cells[i]["cid"])
     elif k < 0.60:
         i = r.randrange(n)
-        cells[i]["src"] = r.choice([v for v in (0, 1, 1, 2, 2, 3, 4) if v != cells[i]["src"]])
+        cells[i]["src"] = r.choice([v for v in (0, 1, 1, 2, 2, 3, 4, 5, 6, 7, 8) if v != cells[i]["src"]])
         label = ("EditSource", i, cells[i]["src"])
     elif k < 0.72:
         cands = [i for i in range(n) if cells[i]["kind"] == "code"]
